@@ -150,6 +150,13 @@ func (r *renderState) openTag(name atom.Atom) {
 	r.dst = append(r.dst, '>')
 }
 
+// hardLineBreak writes a <br> element followed by a newline.
+// Like every other element the renderer produces, it is subject to FilterTag.
+func (r *renderState) hardLineBreak() {
+	r.openTag(atom.Br)
+	r.dst = append(r.dst, '\n')
+}
+
 func (r *renderState) closeTag(name atom.Atom) {
 	const prefix = "</"
 	start := len(r.dst)
@@ -275,7 +282,6 @@ func (r *renderState) postBlock(source []byte, cursor *Cursor) bool {
 }
 
 func (r *renderState) preInline(source []byte, inline *Inline) bool {
-	const hardLineBreak = "<br>\n"
 	switch inline.Kind() {
 	case TextKind, UnparsedKind:
 		r.dst = escapeHTML(r.dst, spanSlice(source, inline.Span()))
@@ -295,7 +301,7 @@ func (r *renderState) preInline(source []byte, inline *Inline) bool {
 	case SoftLineBreakKind:
 		switch r.SoftBreakBehavior {
 		case SoftBreakHarden:
-			r.dst = append(r.dst, hardLineBreak...)
+			r.hardLineBreak()
 		case SoftBreakSpace:
 			r.dst = append(r.dst, ' ')
 		default:
@@ -307,7 +313,7 @@ func (r *renderState) preInline(source []byte, inline *Inline) bool {
 		}
 		return false
 	case HardLineBreakKind:
-		r.dst = append(r.dst, hardLineBreak...)
+		r.hardLineBreak()
 		return false
 	case EmphasisKind:
 		r.openTag(atom.Em)
